@@ -4,6 +4,7 @@ import (
 	"context"
 	"errors"
 	"fmt"
+	"io"
 	"net"
 	"time"
 
@@ -165,15 +166,23 @@ func runC11(e *Env) {
 	cfg.Chan = e.drawChan(true, []int{2, 1, 8})
 	cfg.Writers = e.P(3)
 	cfg.PerWriter = 1 + e.P(2)
-	switch e.P(3) {
+	switch e.P(5) {
 	case 0:
 		cfg.CloseErr = nil
 	case 1:
 		cfg.CloseErr = errSentinel
 	case 2:
 		cfg.CloseErr = fmt.Errorf("wrapped: %w", context.Canceled)
+	case 3:
+		cfg.CloseErr = io.EOF // the usual "peer hung up" reason
+	case 4:
+		cfg.CloseErr = fmt.Errorf("read failed: %w", io.EOF)
 	}
 	cfg.CloseHow = e.P(2)
+	if e.P(8) == 7 {
+		cfg.CloseHow = 3 // a handler closes the channel while the active event is still being delivered
+		cfg.Writers = 0
+	}
 	cfg.PostClose = 1 + e.P(3)
 	cfg.Closers = 1 + e.PB(2, 0.4) // sometimes two racing Close calls: a write after EITHER returned must fail
 	if e.P(3) == 2 {
